@@ -397,3 +397,58 @@ def fault_family(kinds=("undef", "key", "type", "func"), positions=FAULT_POSITIO
             d["fault"] = meta
             out.append(d)
     return out
+
+
+def random_graph_def(rng, nmax=5):
+    """arbitrary fan-out/fan-in, back edges, several transitions between the same pair, engine
+    commands incl. retry, joins - for the composer (C14) and inspection (C15)."""
+    n = rng.randint(2, nmax)
+    names = ["t%d" % (i + 1) for i in range(n)]
+    if rng.random() < 0.3:
+        names = [rng.choice("adgot") + x[1:] for x in names]
+        if len(set(names)) < n:
+            names = ["t%d" % (i + 1) for i in range(n)]
+    conds = ["always", "succeeded", "failed", "completed", "res=1"]
+    tasks = {}
+    for i, t in enumerate(names):
+        nx = []
+        for _ in range(rng.choice([0, 1, 1, 2, 2, 3])):
+            pool = [x for x in names if x != t or rng.random() < 0.1]
+            if rng.random() < 0.7:
+                pool = names[i + 1:] or pool           # mostly forward
+            do = rng.sample(pool, min(len(pool), rng.choice([1, 1, 2])))
+            if rng.random() < 0.25:
+                do.append(rng.choice(["noop", "fail", "continue", "retry"]))
+            rng.shuffle(do)
+            nx.append(dict(when=rng.choice(conds), pub=([["x", "res"]] if rng.random() < 0.3 else []), do=do))
+        tasks[t] = T(next=nx)
+        if rng.random() < 0.15:
+            tasks[t]["retry"] = {"on": True, "count": rng.choice([1, 2]), "when": rng.choice(["default", "failed"]),
+                                 "delay": rng.choice([-1, 2])}
+    inbound = {t: 0 for t in names}
+    for t in names:
+        for n_ in tasks[t]["next"]:
+            for x in n_["do"]:
+                if x in inbound:
+                    inbound[x] += 1
+    for t in names:
+        if inbound[t] >= 2 and rng.random() < 0.4:
+            tasks[t]["join"] = rng.choice([-1, -1, 1, 2])
+    return D.wf("g", tasks, vars=[["x", 0]], fates={t: ["s"] for t in names})
+
+
+def graph_family(seed, count, nmax=5):
+    rng = random.Random(seed)
+    out, seen, tries = [], set(), 0
+    while len(out) < count and tries < count * 40:
+        tries += 1
+        d = random_graph_def(rng, nmax)
+        k = D.dumps(d["tasks"])
+        if k in seen:
+            continue
+        seen.add(k)
+        if not accepted(d):
+            continue
+        d["name"] = "g%d_%d" % (seed, len(out))
+        out.append(d)
+    return out
